@@ -10,6 +10,8 @@ package softspoken
 //@ func (*Receiver).Round1
 //@   property C07
 //@   uses reader
+// (representation invariant of the suite, established by ot.NewDefaultSuite: the block length is positive)
+//@   requires r.suite.L() > 0
 //@   ensures err == nil ==> bytesEq(sigmaBits, squeeze(old(shk(r.prng)), SigmaBytes)) && len(sigmaBits) == SigmaBytes
 //@   ensures r.prng == old(r.prng)
 
